@@ -19,6 +19,7 @@ import (
 	"gitlab.com/aquachain/aquachain/core/state"
 	"gitlab.com/aquachain/aquachain/core/vm"
 	"gitlab.com/aquachain/aquachain/core/vm/runtime"
+	"gitlab.com/aquachain/aquachain/crypto"
 	"gitlab.com/aquachain/aquachain/params"
 	"gitlab.com/aquachain/aquachain/verifharness/vh"
 )
@@ -216,7 +217,7 @@ func checkOps(c *vh.Ctx, m *vh.Model, w *world, cases []opcase, block int64, gtn
 			c.Violate(fmt.Sprintf("op-fails@%d/%s", block, k.text()), "valid instruction on a sufficient stack ends in "+r.errs+" "+r.errtext, replayOp(k, obs, sval))
 		} else if obs != sval {
 			sig := "op/" + k.text()
-			if k.o.name == "SAR" && k.args[1].Sign() == 0 && k.args[0].Cmp(big.NewInt(256)) >= 0 {
+			if k.o.name == "SAR" && k.args[1].Sign() == 0 && k.args[0].Cmp(big.NewInt(256)) >= 0 && obs == hx(sub(pow2(256), 1)) && sval == "0x0" {
 				sig = "sar-zero-value-shift-ge-256"
 			}
 			c.Violate(sig, fmt.Sprintf("%s returns %s, the specification defines %s", k.text(), obs, sval), replayOp(k, obs, sval))
@@ -396,8 +397,8 @@ func checkGasFunctions(c *vh.Ctx, m *vh.Model) {
 			specFee, _ := new(big.Int).SetString(strings.TrimPrefix(spec[0], "0x"), 16)
 			if !failed && new(big.Int).SetUint64(fee).Cmp(specFee) != 0 {
 				sig := "memgas/" + cas
-				if n > 0x1FFFFFFFE0 && n <= 0xffffffffe0 {
-					sig = "memory-gas-square-wraps"
+				if wds := (n + 31) / 32; n > 0x1FFFFFFFE0 && n <= 0xffffffffe0 && fee == 3*wds+(wds*wds)/512-cmem(w0) {
+					sig = "memory-gas-square-wraps" // exactly the uint64-wrapped square, nothing else
 				}
 				c.Violate(sig, fmt.Sprintf("memoryGasCost(%s) = %s, the formula gives %s", cas, u(fee), spec[0]),
 					map[string]interface{}{"kind": "memgas", "memLen": 32 * w0, "lastGasCost": cmem(w0), "newMemSize": u(n), "observed": obs, "expected": spec[0]})
@@ -970,6 +971,274 @@ func minInt(a, b int) int {
 	return b
 }
 
+// ---------------------------------------------------------------- SHA3, environment instructions
+
+func checkSha3Env(c *vh.Ctx, m *vh.Model) {
+	r := c.Rng
+	// the Keccak of the model against crypto.Keccak256
+	for _, n := range []int{0, 1, 31, 32, 33, 135, 136, 137, 200, 272} {
+		b := r.Bytes(n)
+		c.Correspond("crypto.Keccak256~keccakZ", vh.Hex(b), vh.Hex(crypto.Keccak256(b)), m.Ask("keccak "+vh.Hex(b)))
+	}
+	for it := 0; it < c.Scale(120, 6000); it++ {
+		memLen := 32 * (1 + r.Intn(5))
+		mem := r.Bytes(memLen)
+		var off, l *big.Int
+		switch r.Intn(8) {
+		case 0: // empty range anywhere
+			off, l = rand256(r), big.NewInt(0)
+		case 1: // beyond the memory
+			off, l = big.NewInt(int64(r.Intn(memLen))), big.NewInt(int64(memLen+1+r.Intn(4)))
+		case 2:
+			off, l = pow2(63), big.NewInt(1)
+		default:
+			o := r.Intn(memLen)
+			off, l = big.NewInt(int64(o)), big.NewInt(int64(r.Intn(memLen-o+1)))
+		}
+		out, es := vm.VerifExecFrame("spring", 0x20, vm.VerifFrame{Stack: []*big.Int{off, l}, Mem: mem})
+		obs := es
+		if es == "" {
+			obs = "ok " + hx(out.Stack[0])
+		}
+		cas := vh.Hex(mem) + " " + hx(off) + " " + hx(l)
+		mv, sv := splitS(m.Ask("sha3 " + cas))
+		c.Eval("frame/SHA3", cas)
+		c.Correspond("opSha3~op_SHA3", cas, obs, mv)
+		inRange := l.Sign() == 0 || (off.IsInt64() && l.IsInt64() && off.Int64()+l.Int64() <= int64(memLen))
+		if inRange {
+			var data []byte
+			if l.Sign() != 0 {
+				data = mem[off.Int64() : off.Int64()+l.Int64()]
+			}
+			want := "ok " + hx(new(big.Int).SetBytes(crypto.Keccak256(data)))
+			if obs != want || "ok "+sv != want {
+				c.Violate("frame/SHA3/"+cas, fmt.Sprintf("SHA3 gives %s, Keccak-256 of the range is %s (spec %s)", obs, want, sv),
+					map[string]interface{}{"kind": "frame", "op": "SHA3", "case": cas, "observed": obs, "expected": want})
+			}
+		}
+	}
+	envOps := []byte{0x30, 0x32, 0x33, 0x34, 0x36, 0x38, 0x3a, 0x3d, 0x41, 0x42, 0x43, 0x44, 0x45, 0x58, 0x59, 0x5a}
+	addr := func() common.Address { return common.BytesToAddress(r.Bytes(20)) }
+	for it := 0; it < c.Scale(40, 1500); it++ {
+		e := vm.VerifEnv{Address: addr(), Caller: addr(), Origin: addr(), Coinbase: addr(), CallValue: rand256(r), GasPrice: rand256(r),
+			Time: rand256(r), Number: rand256(r), Difficulty: rand256(r), GasLimit: r.Uint64() >> uint(r.Intn(64)), Gas: r.Uint64() >> uint(r.Intn(64))}
+		if r.Chance(20) {
+			e.GasLimit, e.Gas = 1<<64-1, 1<<64-1
+		}
+		f := vm.VerifFrame{Input: r.Bytes(r.Intn(40)), Code: r.Bytes(1 + r.Intn(40)), ReturnData: r.Bytes(r.Intn(40)), Mem: r.Bytes(32 * r.Intn(4)), PC: uint64(r.Intn(1000))}
+		for _, op := range envOps {
+			out, es := vm.VerifExecFrameEnv("spring", op, f, e)
+			obs := es
+			if es == "" && len(out.Stack) == 1 {
+				obs = "ok " + hx(out.Stack[0])
+			}
+			cas := fmt.Sprintf("0x%02x %s %s %s %s %s %s %s %s %s %d %s %s %s %s %d %d", op, hx(e.Address.Big()), hx(e.Caller.Big()), hx(e.CallValue),
+				hx(e.Origin.Big()), hx(e.GasPrice), hx(e.Coinbase.Big()), hx(e.Time), hx(e.Number), hx(e.Difficulty), e.GasLimit,
+				vh.Hex(f.Input), vh.Hex(f.Code), vh.Hex(f.ReturnData), vh.Hex(f.Mem), f.PC, e.Gas)
+			mv, sv := splitS(m.Ask("env " + cas))
+			c.Eval(fmt.Sprintf("frame/ENV-0x%02x", op), cas)
+			c.Correspond("opAddress..opGas~op_ENV", cas, obs, mv)
+			if obs != sv {
+				c.Violate("frame/ENV/"+cas, fmt.Sprintf("environment instruction 0x%02x pushes %s, the specification defines %s", op, obs, sv),
+					map[string]interface{}{"kind": "frame", "op": "ENV", "case": cas, "observed": obs, "expected": sv})
+			}
+		}
+	}
+}
+
+// ---------------------------------------------------------------- state-dependent gas functions
+
+func cfgWith(eip150, eip158 bool) *params.ChainConfig {
+	cfg := &params.ChainConfig{ChainId: big.NewInt(1), HomesteadBlock: big.NewInt(0), HF: params.ForkMap{}}
+	if eip150 {
+		cfg.EIP150Block = big.NewInt(0)
+	}
+	if eip158 {
+		cfg.EIP158Block = big.NewInt(0)
+	}
+	return cfg
+}
+
+func checkStateGas(c *vh.Ctx, m *vh.Model) {
+	r := c.Rng
+	tables := map[string]params.GasTable{"homestead": params.GasTableHomestead, "hf1": params.GasTableHF1, "pre150": params.GasTableHomestead}
+	pre := tables["pre150"]
+	pre.CreateBySuicide = 0
+	tables["pre150"] = pre
+	// gas-table lookups
+	for _, gtn := range []string{"homestead", "hf1"} {
+		var got []string
+		for _, n := range []string{"gasBalance", "gasExtCodeSize", "gasSLoad"} {
+			g, _, _, _, ec := vm.VerifGasState(n, vm.VerifStateArgs{Cfg: cfgWith(true, true), Block: big.NewInt(1), GT: tables[gtn]}, []*big.Int{big.NewInt(0)}, 0, 0, 0)
+			got = append(got, fmt.Sprintf("%s/%d", u(g), ec))
+		}
+		want := strings.Fields(m.Ask("gtlookup " + gtn))
+		c.Eval("stategas/lookup", gtn)
+		c.Correspond("gasBalance,gasExtCodeSize,gasSLoad~gf_*", gtn, strings.Join(got, " "), want[0]+"/0 "+want[1]+"/0 "+want[2]+"/0")
+	}
+	// SSTORE
+	vals := []*big.Int{big.NewInt(0), big.NewInt(1), pow2(255), sub(pow2(256), 1)}
+	for _, cur := range vals {
+		for _, y := range vals {
+			g, _, _, refund, ec := vm.VerifGasState("gasSStore", vm.VerifStateArgs{Cfg: cfgWith(true, true), Block: big.NewInt(1), GT: params.GasTableHF1,
+				CurrentValue: common.BigToHash(cur)}, []*big.Int{big.NewInt(7), y}, 0, 0, 0)
+			obs := fmt.Sprintf("%s %s", u(g), u(refund))
+			if ec != 0 {
+				obs = "err"
+			}
+			cas := hx(cur) + " " + hx(y)
+			mv, sv := splitS(m.Ask("sstore " + cas))
+			c.Eval("stategas/SSTORE", cas)
+			c.Correspond("gasSStore~gasSStore", cas, obs, mv)
+			if obs != sv {
+				c.Violate("stategas/SSTORE/"+cas, fmt.Sprintf("gasSStore gives %s, the specification %s", obs, sv), map[string]interface{}{"kind": "stategas", "case": "sstore " + cas})
+			}
+		}
+	}
+	// SELFDESTRUCT: all combinations
+	for _, gtn := range []string{"homestead", "hf1"} {
+		for bits := 0; bits < 64; bits++ {
+			b := func(i uint) bool { return bits>>i&1 == 1 }
+			bal := big.NewInt(0)
+			if b(4) {
+				bal = big.NewInt(5)
+			}
+			g, _, _, refund, ec := vm.VerifGasState("gasSuicide", vm.VerifStateArgs{Cfg: cfgWith(b(0), b(1)), Block: big.NewInt(1), GT: tables[gtn],
+				AddrEmpty: b(2), AddrExist: b(3), Balance: bal, HasSuicided: b(5)}, []*big.Int{big.NewInt(9)}, 0, 0, 0)
+			obs := fmt.Sprintf("%s %s", u(g), u(refund))
+			if ec != 0 {
+				obs = "err"
+			}
+			cas := fmt.Sprintf("%s %v %v %v %v %v %v", gtn, b(0), b(1), b(2), b(3), b(4), b(5))
+			mv, sv := splitS(m.Ask("suicide " + cas))
+			c.Eval("stategas/SELFDESTRUCT", cas)
+			c.Correspond("gasSuicide~gasSuicide", cas, obs, mv)
+			if obs != sv {
+				c.Violate("stategas/SELFDESTRUCT/"+cas, fmt.Sprintf("gasSuicide gives %s, the specification %s", obs, sv), map[string]interface{}{"kind": "stategas", "case": "suicide " + cas})
+			}
+		}
+	}
+	// CALL family
+	values := []*big.Int{big.NewInt(0), big.NewInt(1), pow2(255)}
+	mss := []uint64{0, 64, 96, 1 << 20, 0x1FFFFFFFE0, 0xffffffffe0 + 32}
+	avails := []uint64{0, 100, 699, 700, 701, 9700, 34700, 34800, 100000, 1 << 40, 1<<64 - 1}
+	costs := []*big.Int{big.NewInt(0), big.NewInt(2300), big.NewInt(90000), big.NewInt(1 << 40), sub(pow2(64), 1), pow2(64), sub(pow2(256), 1)}
+	kinds := []struct {
+		kind, fn   string
+		depthValue bool
+	}{{"call", "gasCall", true}, {"callcode", "gasCallCode", true}, {"delegate", "gasDelegateCall", false}, {"static", "gasStaticCall", false}}
+	for it := 0; it < c.Scale(2500, 60000); it++ {
+		k := kinds[r.Intn(4)]
+		gtn := []string{"hf1", "hf1", "homestead", "pre150"}[r.Intn(4)]
+		e158 := r.Bool()
+		value := values[r.Intn(3)]
+		empty, exist := r.Bool(), r.Bool()
+		ms, avail, cost := mss[r.Intn(len(mss))], avails[r.Intn(len(avails))], costs[r.Intn(len(costs))]
+		if r.Chance(30) {
+			avail = r.Uint64() >> uint(r.Intn(64))
+		}
+		stack := []*big.Int{cost, big.NewInt(0xabc), value, big.NewInt(0), big.NewInt(0), big.NewInt(0), big.NewInt(0)}
+		if !k.depthValue {
+			stack = []*big.Int{cost, big.NewInt(0xabc), big.NewInt(0), big.NewInt(0), big.NewInt(0), big.NewInt(0)}
+			value = big.NewInt(0)
+		}
+		g, last, temp, _, ec := vm.VerifGasState(k.fn, vm.VerifStateArgs{Cfg: cfgWith(true, e158), Block: big.NewInt(1), GT: tables[gtn],
+			AddrEmpty: empty, AddrExist: exist, ContractGas: avail}, stack, 64, cmem(2), ms)
+		obs := "err"
+		if ec == 0 {
+			obs = fmt.Sprintf("ok %s %s %s", u(g), u(temp), u(last))
+		} else if ec != 1 {
+			obs = fmt.Sprintf("err-class-%d", ec)
+		}
+		cas := fmt.Sprintf("%s %s %v %s %v %v 64 %d %s %d %s", k.kind, gtn, e158, hx(value), empty, exist, cmem(2), u(ms), avail, hx(cost))
+		mv, sv := splitS(m.Ask("gascall " + cas))
+		c.Eval("stategas/"+k.fn+"/"+gtn, cas)
+		c.Correspond(k.fn+"~"+k.fn, cas, obs, mv)
+		// oracle: on the proved domain the charge and the gas passed on are the specified ones; an
+		// unaffordable base can never come out as an affordable total
+		sp := strings.Fields(sv) // C_call, gascap, base
+		base, _ := new(big.Int).SetString(strings.TrimPrefix(sp[2], "0x"), 16)
+		if gtn != "pre150" && ms <= 0x1FFFFFFFE0 {
+			if base.Cmp(new(big.Int).SetUint64(avail)) <= 0 {
+				want := "ok " + sp[0] + " " + sp[1]
+				if !strings.HasPrefix(obs, want+" ") {
+					c.Violate("stategas/"+k.fn+"/"+cas, fmt.Sprintf("%s gives %s, the specification defines %s", k.fn, obs, want),
+						map[string]interface{}{"kind": "stategas", "case": "gascall " + cas, "observed": obs, "expected": want})
+				}
+			} else if ec == 0 && g <= avail {
+				c.Violate("stategas-affordable/"+k.fn+"/"+cas, "base cost exceeds the gas left but the returned total is payable",
+					map[string]interface{}{"kind": "stategas", "case": "gascall " + cas, "observed": obs})
+			}
+		}
+	}
+}
+
+// ---------------------------------------------------------------- chain rules and write protection
+
+func checkRules(c *vh.Ctx, m *vh.Model, w *world) {
+	r := c.Rng
+	optBlock := func() *big.Int {
+		if r.Chance(30) {
+			return nil
+		}
+		return big.NewInt(int64(r.Intn(12)))
+	}
+	s := func(b *big.Int) string {
+		if b == nil {
+			return "none"
+		}
+		return b.String()
+	}
+	for i := 0; i < c.Scale(300, 10000); i++ {
+		cfg := &params.ChainConfig{ChainId: big.NewInt(1), HomesteadBlock: optBlock(), EIP150Block: optBlock(), EIP155Block: optBlock(), EIP158Block: optBlock(),
+			ByzantiumBlock: optBlock(), HF: params.ForkMap{}}
+		num := big.NewInt(int64(r.Intn(13)))
+		rules, sp, cp := vm.VerifChainRules(cfg, num)
+		obs := fmt.Sprintf("%v %v %v %v %v", rules.IsHomestead, rules.IsEIP150, rules.IsEIP155, rules.IsEIP158, rules.IsByzantium)
+		cas := fmt.Sprintf("%s %s %s %s %s %s", s(cfg.HomesteadBlock), s(cfg.EIP150Block), s(cfg.EIP155Block), s(cfg.EIP158Block), s(cfg.ByzantiumBlock), num)
+		c.Eval("rules", cas)
+		c.Correspond("ChainConfig.Rules~select_rules", cas, obs, m.Ask("rules "+cas))
+		c.Correspond("enforceRestrictions(readOnly,SSTORE)~enforceRestrictions", cas, fmt.Sprint(sp), m.Ask(fmt.Sprintf("enforce %v true true false 0", rules.IsByzantium)))
+		c.Correspond("enforceRestrictions(readOnly,CALL value)~enforceRestrictions", cas, fmt.Sprint(cp), m.Ask(fmt.Sprintf("enforce %v true false true 1", rules.IsByzantium)))
+	}
+	tab, _ := vm.VerifJumpTable("spring")
+	for _, op := range []byte{0x01, 0x54, 0x55, 0xa0, 0xa4, 0xf0, 0xf1, 0xf2, 0xf4, 0xfa, 0xff} {
+		for bits := 0; bits < 4; bits++ {
+			for _, v := range []*big.Int{big.NewInt(0), big.NewInt(1), pow2(255)} {
+				byz, ro := bits&1 == 1, bits&2 == 2
+				got := vm.VerifEnforceRestrictions(byz, ro, op, v)
+				cas := fmt.Sprintf("%v %v %v %v %s", byz, ro, tab[op].Writes, op == 0xf1, hx(v))
+				c.Eval("enforce", fmt.Sprintf("%02x %s", op, cas))
+				c.Correspond("Interpreter.enforceRestrictions~enforceRestrictions", fmt.Sprintf("op 0x%02x %s", op, cas), fmt.Sprint(got), m.Ask("enforce "+cas))
+			}
+		}
+	}
+	// through the interpreter: A STATICCALLs B, B executes SSTORE; A returns the success flag.
+	// The model says whether read-only mode refuses the SSTORE at that height (mainnet rules).
+	addrB := common.StringToAddress("calleeB")
+	w.st.CreateAccount(addrB)
+	w.st.SetCode(addrB, []byte{0x60, 0x01, 0x60, 0x00, 0x55, 0x00})
+	codeA := []byte{0x60, 0x00, 0x60, 0x00, 0x60, 0x00, 0x60, 0x00, 0x73}
+	codeA = append(codeA, addrB.Bytes()...)
+	codeA = append(codeA, 0x5a, 0xfa, 0x60, 0x00, 0x52, 0x60, 0x20, 0x60, 0x00, 0xf3)
+	for _, block := range []int64{blockSpringB, blockSpring} {
+		rr := w.run(params.MainnetChainConfig, block, codeA, nil, progGas)
+		obs := rr.errs
+		if rr.errs == "" {
+			obs = hx(new(big.Int).SetBytes(rr.ret)) // 1 = the callee's write went through
+		}
+		rulesLine := strings.Fields(m.Ask(fmt.Sprintf("rules 0 0 36050 36050 36050 %d", block)))
+		protected := m.Ask(fmt.Sprintf("enforce %s true true false 0", rulesLine[4]))
+		want := "0x1"
+		if protected == "true" {
+			want = "0x0"
+		}
+		c.Eval("rules/staticcall-sstore", fmt.Sprint(block))
+		c.Correspond("STATICCALL->SSTORE success flag~enforceRestrictions(select_rules mainnet)", fmt.Sprintf("mainnet block %d", block), obs, want)
+		c.Note("mainnet block %d: STATICCALL to a callee that executes SSTORE returns %s (1 = write not refused; chain rules IsByzantium=%s)", block, obs, rulesLine[4])
+	}
+}
+
 // ---------------------------------------------------------------- fork -> table selection on random fork maps
 
 func checkSelection(c *vh.Ctx, m *vh.Model) {
@@ -1036,6 +1305,9 @@ func replay(c *vh.Ctx, m *vh.Model, w *world) {
 		checkJumpdests(c, m, w)
 	case "frame":
 		checkFrames(c, m)
+		checkSha3Env(c, m)
+	case "stategas":
+		checkStateGas(c, m)
 	default:
 		checkValidity(c, m, w)
 	}
@@ -1083,6 +1355,9 @@ func main() {
 	checkMemoryTwice(c, m, w)
 	checkJumpdests(c, m, w)
 	checkFrames(c, m)
+	checkSha3Env(c, m)
+	checkStateGas(c, m)
+	checkRules(c, m, w)
 	checkSelection(c, m)
 	c.Assume("block gas limits keep memory below 2^32 words (128 GiB): beyond that memoryGasCost wraps (memory-gas-square-wraps) or fails although the formula fits in 64 bits")
 	c.Assume("programs run with 10,000,000 gas at mainnet heights 1000 / 20000 / 30000 / 40000")
